@@ -154,7 +154,7 @@ func genC17(t *Tape) *lifeScenario {
 	}
 	sc.ShutdownCtx = 5 * time.Second
 	if sc.Action == "shutdown_tight" {
-		sc.ShutdownCtx = time.Duration(1+t.Choose(80)) * time.Millisecond
+		sc.ShutdownCtx = time.Duration(1+t.Choose(80))*time.Millisecond + 137*time.Nanosecond // (a runtime timer: kept off the instants of Shutdown's own 50 ms polling timer)
 		if t.Chance(1, 6) {
 			sc.ShutdownCtx = 0 // a context whose deadline has already passed when Shutdown is called
 		}
